@@ -164,7 +164,7 @@ def check_matrices(ctx):
 
 
 def check_derivative(ctx):
-    f = ctx.fn('simulator:CSimInterface.prep_deterministic_simulation')
+    f = util.inline_pure_temps(ctx.fn('simulator:CSimInterface.prep_deterministic_simulation'))
     where = ctx.loc('simulator', f)
     txt = [k(util.stmt_key(s)) for s in ast.walk(f) if isinstance(s, ast.stmt)]
     problems = []
